@@ -86,6 +86,18 @@ for sid in ids:
             det["errors"][p] = e[-600:]
     det["caught"] = bool(det["reported_by"])
     det["caught_by_own_property_check"] = meta["property"] in det["reported_by"]
+    if PARTIAL and "--merge" in sys.argv and os.path.exists(os.path.join(d, "detection.json")):
+        # re-run of some checks only: replace their entries in the recorded result
+        old = json.load(open(os.path.join(d, "detection.json")))
+        for p_ in which:
+            old["reported_by"].pop(p_, None)
+            old.get("errors", {}).pop(p_, None)
+        old["reported_by"].update(det["reported_by"])
+        old.setdefault("errors", {}).update(det["errors"])
+        old["checks_run"] = sorted(set(old.get("checks_run", [])) | set(which))
+        old["caught"] = bool(old["reported_by"])
+        old["caught_by_own_property_check"] = meta["property"] in old["reported_by"]
+        json.dump(old, open(os.path.join(d, "detection.json"), "w"), indent=1)
     if not PARTIAL:
         json.dump(det, open(os.path.join(d, "detection.json"), "w"), indent=1)
     else:
@@ -93,7 +105,7 @@ for sid in ids:
             for l in ls[:5]:
                 print("     ", p_, l[:400])
     print(sid, "caught by", sorted(det["reported_by"]) or "NOTHING", ("errors " + str(sorted(det["errors"]))) if det["errors"] else "", f"{time.time()-t0:.0f}s", flush=True)
-if PARTIAL or "--notable" in sys.argv:
+if (PARTIAL and "--merge" not in sys.argv) or "--notable" in sys.argv:
     sys.exit(0)
 # table
 rows = []
